@@ -14,6 +14,7 @@ package main
 // not confirmed: the VIOLATION line then ends with no-failing-input-found.
 
 import (
+	"context"
 	"encoding/json"
 	"fmt"
 	"go/types"
@@ -517,7 +518,7 @@ func tryReplay(P *Prog, verif, prop string, o *Obligation) map[string]any {
 		withBounds += "(assert " + b + ")\n"
 	}
 	tail := "(check-sat)\n(get-value (" + strings.Join(names, " ") + "))\n"
-	v, out, _ := runSolver(solvers[1], withBounds+tail, 20)
+	v, out, _ := runSolverCtx(context.Background(), solvers[1], withBounds+tail, 40, nil)
 	if v != "sat" {
 		res["replay_skipped"] = "no small model (all inputs within " + fmt.Sprint(replayMaxElems) + " elements): " + v
 		return res
@@ -618,9 +619,13 @@ func tryReplay(P *Prog, verif, prop string, o *Obligation) map[string]any {
 	ovPath := strings.TrimSuffix(testPath, "_test.go") + ".overlay.json"
 	os.WriteFile(ovPath, ovj, 0o644)
 	repoRoot := repoRootOf(pkgDir)
-	cmd := exec.Command("go", "test", "-overlay", ovPath, "-vet=off", "-count=1", "-timeout", "60s", "-run", "^TestVerifReplay$", "-v", "./"+relPath(repoRoot, pkgDir))
+	goBin := "/opt/veriftools/go1.26.8/bin/go" // /repo needs this toolchain (go.mod: go 1.25)
+	if _, err := os.Stat(goBin); err != nil {
+		goBin = "go"
+	}
+	cmd := exec.Command(goBin, "test", "-overlay", ovPath, "-vet=off", "-count=1", "-timeout", "60s", "-run", "^TestVerifReplay$", "-v", "./"+relPath(repoRoot, pkgDir))
 	cmd.Dir = repoRoot
-	cmd.Env = append(os.Environ(), "GOFLAGS=-mod=mod", "GOPROXY=off", "GOSUMDB=off", "GOTOOLCHAIN=local")
+	cmd.Env = append(os.Environ(), "GOFLAGS=-mod=mod", "GOPROXY=off", "GOSUMDB=off", "GOTOOLCHAIN=local", "PATH=/opt/veriftools/go1.26.8/bin:"+os.Getenv("PATH"))
 	outb, _ := cmd.CombinedOutput()
 	runOut := string(outb)
 	res["replay_test"] = testPath
